@@ -2002,4 +2002,49 @@ theorem fixed_nested_structure_examples :
   decide
 
 
+
+/-! ### the reported fields of phase one, as a list -/
+
+/-- `deserialize_single_field` rejects the document value (flat fields: the scratch-aware flat
+    model; every other declaration: `deser`) -/
+def p1RejectsD (O : Oracles) (opts : DeserOpts) (ign : Bool) (f : FieldDecl) (v : PyVal) : Bool :=
+  if isFlatDecl f then p1Rejects O f v else !isOk (deser O opts ign f v)
+
+/-- in collect-all mode the first phase reports, in field order, EXACTLY the supplied non-null
+    fields whose document value `deserialize_single_field` rejects — every class, every declaration,
+    any depth, every scratch state -/
+theorem p1SitesD_tops (O : Oracles) (opts : DeserOpts) (ign : Bool)
+    (scr : List (String × List (Option String))) (doc : List (String × PyVal))
+    (fields : List (String × FieldDecl)) :
+    (p1SitesD O opts ign scr doc fields).map (·.top) =
+      fields.filterMap fun nf =>
+        match lookup nf.1 doc with
+        | none => none
+        | some v => if !v.isNone && p1RejectsD O opts ign nf.2 v then some nf.1 else none := by
+  induction fields with
+  | nil => rfl
+  | cons nf rest ih =>
+    simp only [p1SitesD, List.filterMap_cons] at ih ⊢
+    cases hl : lookup nf.1 doc with
+    | none => simpa [hl] using ih
+    | some v =>
+      by_cases hv : v.isNone = true
+      · simpa [hv] using ih
+      · simp only [hv, Bool.false_eq_true, if_false, Bool.not_false, Bool.true_and]
+        have hsome := p1SiteD_isSome O opts ign ((lookup nf.1 scr).getD []) nf.1 nf.2 v
+        cases hs : p1SiteD O opts ign ((lookup nf.1 scr).getD []) nf.1 nf.2 v with
+        | none =>
+          rw [hs] at hsome
+          have : p1RejectsD O opts ign nf.2 v = false := by
+            unfold p1RejectsD; exact hsome.symm
+          simpa [this] using ih
+        | some s =>
+          rw [hs] at hsome
+          have hr : p1RejectsD O opts ign nf.2 v = true := by
+            unfold p1RejectsD; exact hsome.symm
+          have ht := p1SiteD_top O opts ign _ nf.1 nf.2 v s hs
+          simp only [hr, if_true, List.map_cons, ht]
+          exact congrArg _ ih
+
+
 end Typedpy.C18
